@@ -130,6 +130,16 @@ def build_value(cs_type, sem, t, v):
         return v.value
     t = sem.res(t)
     k = t["k"]
+    if k == "st" and t["kind"] == "union":
+        # a union constructed from keywords is rebuilt from its first given member only (documented); a coherent
+        # union value is obtained by parsing its bytes
+        mode = sem.union_write
+        sem.union_write = "ideal"
+        try:
+            raw = bytes(sem.encode(t, v))
+        finally:
+            sem.union_write = mode
+        return cs_type(raw)
     if k == "st":
         kwargs = {}
         for i, (f, lf) in enumerate(zip(t["fields"], cs_type.__fields__)):
